@@ -301,6 +301,9 @@ class Textgrid:
         maxTimestamp = self.maxTimestamp
         if doShrink is True:
             maxTimestamp -= diff
+            # See eraseRegion in the tier classes: guard against rounding
+            if end <= self.maxTimestamp and maxTimestamp < start:
+                maxTimestamp = start
 
         newTG = Textgrid(self.minTimestamp, self.maxTimestamp)
         for tier in self.tiers:
